@@ -232,6 +232,15 @@ func runC01(c *wk.Ctx) {
 			c.Eval(wk.Hash64(descr, cmpx.Canon(in)), nonNative || sub.shape.Depth() >= 2)
 			c01Chain(c, sub, descr, in, viaCBOR)
 		}
+		// two keys of a map that denote the same key ("7" beside 7): whatever Unserialize makes of it, an accepted
+		// result must still satisfy the chain (in particular the size bounds)
+		if raw, ok := gen.ValidRaw(r, sub.shape, sub.env, 0); ok {
+			if in, ok := gen.AddCollidingKey(r, gen.CopyRaw(raw)); ok {
+				c.Count("inputs_with_colliding_keys")
+				c.Eval(wk.Hash64(descr, "colliding", cmpx.Canon(in)), true)
+				c01Chain(c, sub, descr, in, false)
+			}
+		}
 		if idx < 4 {
 			c.Sample("schema", descr)
 		}
